@@ -44,6 +44,10 @@ class _Gen:
         self.n_scheds = 0
         self.budget = rng.choice((3, 4, 5, 6, 8, 10, prof['max_jobs']))
         self.budget = min(self.budget, prof['max_jobs'])
+        self.max_depth = prof['max_depth']
+        if rng.random() < 0.03:
+            # now and then a larger tree
+            self.budget, self.max_depth = 24, 4
         # a small palette of durations makes equal completion instants common
         k = rng.choice((1, 2, 2, 3, 4))
         self.palette = [rng.choice(GRID) for _ in range(k)]
@@ -116,7 +120,7 @@ class _Gen:
         if not top and rng.random() < 0.04:
             n = 0                                   # empty nested scheduler
         for _ in range(n):
-            if (feat['nesting'] and depth < prof['max_depth']
+            if (feat['nesting'] and depth < self.max_depth
                     and self.n_jobs < self.budget and rng.random() < 0.3):
                 node["members"].append(self.sched(depth + 1))
             elif self.n_jobs < self.budget or not node["members"]:
@@ -268,6 +272,7 @@ def gen_knobs(rng, feat):
         "tie_shuffle": rng.random() < 0.85,
         "stall_den": stall,
         "entry": rng.choice(("run", "co_run")),
+        "noise": rng.choice((0, 0, 0, 0.25, 0.125)),
         "sched_seed": rng.randrange(1 << 30),
     }
 
